@@ -21,8 +21,10 @@ RULE = ("all 63 non-empty route tables over {S6a, Gx} x {316, 317, 272} x all hi
         "Session-Id}. A case is one history on one route table; distinct by "
         "construction; non-trivial = histories with at least one non-answer outcome or >= 2 requests")
 ASSUMPTIONS = [
-    "in-process Worker with a stand-in manager (vk/inproc.py); dispatch runs sequentially here, the "
-    "concurrency of dispatch belongs to C14",
+    "in-process Worker with a stand-in manager (vk/inproc.py); the histories dispatch sequentially; two (thorough "
+    "three) requests in flight at once, with handlers that return a module-level answer or module-level AVP "
+    "objects, are explored by the schedule explorer (every schedule with <= 1 deviation; the stand-in queues "
+    "snapshot by pickling, as manager queues do)",
     "unregistered (application, command) pairs and handlers raising non-Exception BaseExceptions are "
     "outside the statement",
     "callback_route raising BromeliaException after it has sent the error answer is by design (it ends "
@@ -253,6 +255,137 @@ def _run_history_on(rep, table, history, ctx, _unused):
             rep.violation(f"C13:{k}:{osig}", f"step {idx} {pair} {outcome}: {text}", wit)
 
 
+# ------------------------------------------------------------------------------------------------------------
+# concurrent dispatch (schedule explorer): two requests in flight at once, handlers that reuse objects
+# ------------------------------------------------------------------------------------------------------------
+
+def _concurrent_scenario():
+    import pickle
+    from vk.vrt import explore, shims
+    from checks import c14
+
+    class SnapshotQueue(shims.Queue):
+        """A manager Queue hands a pickled copy to the other process: what is put is a snapshot."""
+        def put(self, item, block=True, timeout=None):
+            super().put(pickle.loads(pickle.dumps(item)), block, timeout)
+        put_nowait = put
+
+    class SnapshotManager(c14.VrtManager):
+        def Queue(self):
+            return SnapshotQueue()
+
+    class ConcurrentDispatch(explore.Scenario):
+        name = "concurrent-dispatch"
+        horizon = 60.0
+        max_points = 20000
+        idle_window = 8.0
+        auto_shared = True
+        shared = frozenset({"pending_answers", "msg", "routes", "associations", "recv_queues", "testing_answer"})
+
+        def driver(self, rt):
+            import bromelia.bromelia as BB
+            from bromelia.base import DiameterAnswer
+            import bromelia.avps as A
+            mode = self.params["handler"]
+            BB.BROMELIA_TICKER = 0.25
+            app, workers = inproc.make_bromelia(["s6a"], manager=SnapshotManager(), zero_timers=False)
+            BB.SEND_THRESHOLD_TICKER = 0.05
+            BB.PROCESS_TIMER = 0.001
+            worker = workers["s6a"]
+            outbox = shims.Queue()
+            worker.app = c14.StubConnection(worker.app.config, outbox)
+            pair = (S6A, 316)
+            static_answer = DiameterAnswer(command_code=316, application_id=S6A,
+                                           avps=[A.SessionIdAVP(b"static;0;0"), A.ResultCodeAVP(2001),
+                                                 A.OriginHostAVP("handler.example"), A.OriginRealmAVP("example")])
+            static_avps = [A.SessionIdAVP(b"static;0;0"), A.ResultCodeAVP(2001), A.OriginHostAVP("handler.example"),
+                           A.OriginRealmAVP("example")]
+
+            def handler(request):
+                if mode == "static-answer":      # a module-level answer returned for every request
+                    return static_answer
+                if mode == "static-avps":        # a fresh answer built from module-level AVP objects
+                    return DiameterAnswer(command_code=316, application_id=S6A, avps=list(static_avps))
+                return DiameterAnswer(command_code=316, application_id=S6A,
+                                      avps=[A.SessionIdAVP(b"fresh;0;0"), A.ResultCodeAVP(2001),
+                                            A.OriginHostAVP("handler.example"), A.OriginRealmAVP("example")])
+            handler.__name__ = "route_static"
+            app.route(pair[0].to_bytes(4, "big"), pair[1].to_bytes(3, "big"))(handler)
+            reqs = [make_request(pair, i) for i in range(self.params.get("n", 2))]
+            rt.observations["requests"] = [(r.header.get_hop_by_hop(), r.header.get_end_to_end(), r.session_id_avp.data.hex())
+                                           for r in reqs]
+            T = shims.Thread
+            T(target=worker.send_handler, name="send_handler").start()
+            T(target=app.main, name="bromelia_main").start()
+            rt.begin_exploration()
+
+            def peer():
+                for r in reqs:
+                    worker.notify_incoming_message(r)
+            T(target=peer, name="peer").start()
+            got = []
+            tm = shims.make_time()
+            deadline = rt.now + rt.stall_time + 12.0
+            while len(got) < len(reqs) and rt.now < deadline:
+                while outbox._q:
+                    got.append(outbox._q.popleft())
+                tm.sleep(0.25)
+            tm.sleep(rt.stall_time + 2.0)         # anything that comes late (a second answer) is seen too
+            while outbox._q:
+                got.append(outbox._q.popleft())
+            out = []
+            for m in got:
+                sid = m.session_id_avp.data.hex() if m.has_avp("session_id_avp") else None
+                out.append((m.header.get_hop_by_hop(), m.header.get_end_to_end(), sid,
+                            m.header.get_length() == len(m.dump())))
+            rt.observations["answers"] = out
+            rt.stop()
+
+        def oracle(self, rt):
+            reqs, answers = rt.observations.get("requests", []), rt.observations.get("answers")
+            mode = self.params["handler"]
+            if answers is None:
+                return [(f"C13:concurrent:{rt.verdict}:{mode}", f"dispatch did not finish: {rt.verdict}")]
+            errs = []
+            for hbh, e2e, sid in reqs:
+                mine = [a for a in answers if a[0] == hbh]
+                if len(mine) != 1:
+                    errs.append((f"C13:concurrent:{len(mine)}-answers:{mode}",
+                                 f"request {hbh:#x} got {len(mine)} answer(s); sent: {answers}"))
+                    continue
+                if mine[0][1] != e2e or mine[0][2] != sid:
+                    errs.append((f"C13:concurrent:foreign-identity:{mode}",
+                                 f"the answer to {hbh:#x} carries End-to-End {mine[0][1]:#x} / Session-Id "
+                                 f"{bytes.fromhex(mine[0][2] or '')!r}, the request's are {e2e:#x} / {bytes.fromhex(sid)!r}"))
+                if not mine[0][3]:
+                    errs.append((f"C13:concurrent:message-length:{mode}", f"the answer to {hbh:#x} has a stale Message Length"))
+            for t in rt.crashed_threads():
+                if t.library and not isinstance(t.exc, BaseException.__class__) and type(t.exc).__name__ != "BromeliaException":
+                    errs.append((f"C13:concurrent:thread-crashed:{type(t.exc).__name__}:{mode}", f"{t.name}: {t.exc}"))
+            return errs
+
+        def outcome(self, rt):
+            return (rt.verdict, tuple(sorted((a[0], a[2]) for a in rt.observations.get("answers") or [])))
+    return ConcurrentDispatch
+
+
+def _sched_shard(rep, arg):
+    from vk.vrt import explore
+    params, bound, k, n = arg
+    scn = _concurrent_scenario()(**params)
+    stats = {"executions": 0, "points": 0}
+    if k == 0:
+        base = explore.selfcheck_determinism(scn)
+        explore.run_one(scn, (), rep, stats)
+        rep.sample({"scenario": scn.name, "params": params, "deviation_bound": bound, "points": len(base.points)})
+    else:
+        base = explore.execute(scn)
+    if bound >= 1:
+        firsts = explore.successors(base, ())
+        explore.explore_subtree(scn, firsts[k::n], bound, rep, stats)
+    rep.add(evaluations=stats["executions"], distinct=stats["executions"], concurrent_executions=stats["executions"])
+
+
 def tables():
     for r in range(1, len(PAIRS) + 1):
         for t in itertools.combinations(PAIRS, r):
@@ -309,6 +442,14 @@ def run(report, tier, seed):
     for i in range(0, len(excs), 40):
         shards.append(("exceptions", excs[i:i + 40]))
     core.run_shards(report, _dispatch, shards)
+    conc = [(dict(handler="fresh"), 1), (dict(handler="static-answer"), 1), (dict(handler="static-avps"), 1)]
+    if tier == "thorough":
+        conc += [(dict(handler="static-answer", n=3), 1), (dict(handler="static-avps"), 2)]
+    sshards = []
+    for params, bound in conc:
+        m = 8 if bound == 1 else 32
+        sshards += [(params, bound, k, m) for k in range(m)]
+    core.run_shards(report, _sched_shard, sshards, fresh_process=True)
     return {"route_tables": len(all_tables), "exception_outcomes": len(excs)}
 
 
@@ -355,6 +496,18 @@ def _dispatch(rep, arg):
 
 
 def replay(w):
+    if "scenario" in w:
+        from vk.vrt import explore
+        scn = _concurrent_scenario()(**w["params"])
+        rt = explore.execute(scn, {int(i): int(a) for i, a in w["choices"]})
+        errs = scn.oracle(rt)
+        for p in rt.points[(rt.explore_from or 0):]:
+            if p.chosen:
+                print(f"  {p.thread:16s} {p.kind:12s} {p.label:28s} chosen={p.chosen} of {p.cands}")
+        print("requests", rt.observations.get("requests")); print("answers ", rt.observations.get("answers"))
+        for sig, text in errs:
+            print(sig, "|", text)
+        return bool(errs)
     rep = core.Report("C13")
     table = tuple(tuple(p) for p in w["table"])
     history = tuple((tuple(st[0]),) + tuple(st[1:]) for st in w["history"])
